@@ -92,6 +92,11 @@ def addl_objects(schema):
 def _work(args):
     idx, schema, res, N = args
     out = dict(idx=idx, status="ok", queries=0, solver_s=0.0, cands=[], twin=None, sizes=None, note=None, addkey=None)
+    c06_only = isinstance(schema, dict) and schema.get("x-verif-c06-only")
+    if not res.get("ok") and c06_only:
+        # allOf / patternProperties combinations are outside C07's subset: a refusal is the documented answer
+        out["status"] = "unsat_ok"
+        return out
     if not res.get("ok"):
         out["status"] = "compile_error"
         out["note"] = str(res.get("error"))[:300]
@@ -150,6 +155,8 @@ def _work(args):
     s.add(*e2_.cons)
     inv = {v: k for k, v in atoms.items()}
     for kind, mk in (("C06", lambda j: z3.And(e1.derives(j), z3.Not(e2_.derives(j)))), ("C07", lambda j: z3.And(e2_.derives(j), z3.Not(e1.derives(j))))):
+        if kind == "C07" and c06_only:
+            continue
         s.push()
         s.add(z3.Or(*[mk(j) for j in range(N + 1)]))
         t0 = time.time()
@@ -213,7 +220,7 @@ def run_for(prop):
     try:
         for c in cases:
             c["schema_ref"] = c["schema"]
-            c["schema"] = {k: v for k, v in c["schema"].items() if k != "x-verif-finite"} if isinstance(c["schema"], dict) else c["schema"]
+            c["schema"] = {k: v for k, v in c["schema"].items() if not k.startswith("x-verif-")} if isinstance(c["schema"], dict) else c["schema"]
         jobs = [dict(op="compile", kind="json", schema=c["schema"], want=["cgrammar", "lexemes", "automata"], max_states=400) for c in cases]
         results = e2.run_jobs(jobs)
     except RuntimeError as ex:
